@@ -213,3 +213,24 @@ pub mod thread {
         shuttle::thread::sleep(d)
     }
 }
+
+/// Deterministic stand-ins for two process-history-dependent values that `encryption::aes::
+/// generate_iv` mixes into its IVs (the std thread id and a process-wide call counter). Every
+/// simulated case runs on a fresh thread, so a per-thread counter starting at 0 makes the IVs a
+/// function of the case's owned clock / pid / this counter only.
+pub mod det {
+    use std::cell::Cell;
+    std::thread_local! {
+        static COUNTER: Cell<usize> = const { Cell::new(0) };
+    }
+    pub fn thread_tag() -> u64 {
+        0
+    }
+    pub fn next_counter() -> usize {
+        COUNTER.with(|c| {
+            let v = c.get();
+            c.set(v + 1);
+            v
+        })
+    }
+}
